@@ -693,10 +693,14 @@ def run(tier, seed):
     if not proved:
         n_schemas *= 2
     kfs = {k["id"]: k for k in own_findings()}
-    KF_KIND, KF_SLASH = "kf-c14-cbor-docparse-as-cddlparsing", "kf-c14-slash-key-location"
+    KF_SLASH = "kf-c14-slash-key-location"
 
-    # ---- corpus: witnesses of the _refuted theorems and of the findings, fixed shapes ----
+    # ---- corpus (runs first): witnesses of the _refuted theorems, of the open finding and of the fixed finding
+    # kf-c14-cbor-docparse-as-cddlparsing (repaired in /repo 58416f1: a recurrence - the malformed CBOR document 18 reported with
+    # the constructor of the malformed schema "r0 = [ int" - is a VIOLATION of check (b)), fixed shapes ----
     corpus = [
+        mk("C", "corpus", "doc-malformed", "r0 = int\n", b"\x18"),
+        mk("C", "corpus", "schema-malformed", "r0 = [ int\n", b"\x01"),
         mk("J", "corpus", "invalid", 'r0 = { "x/y": int }\n', b'{"x/y": "s"}', {"x/y": "s"}),
         mk("J", "corpus", "invalid", 'r0 = { "x/y": { "z": int } }\n', b'{"x/y": {"z": "s"}}', {"x/y": {"z": "s"}}),
         mk("J", "corpus", "invalid", 'r0 = { "": { "z": int } }\n', b'{"": {"z": "s"}}', {"": {"z": "s"}}),
@@ -706,8 +710,6 @@ def run(tier, seed):
         mk("J", "corpus", "valid", 'r0 = { "a": int } / { "b": tstr }\n', b'{"b": "s"}', {"b": "s"}),
         mk("J", "corpus", "invalid", 'r0 = [ int, { "k": [ bool, bool ] } ]\n', b'[1, {"k": [true, 3]}]', [1, {"k": [True, 3]}]),
         mk("C", "corpus", "invalid", 'r0 = { "a": { "p": int, "q": [ int, tstr ] }, "b": tstr }\n', cbor_enc({"a": {"p": 1, "q": [1, 2]}, "b": 5}), {"a": {"p": 1, "q": [1, 2]}, "b": 5}),
-        mk("C", "corpus", "doc-malformed", "r0 = int\n", b"\x18"),
-        mk("C", "corpus", "schema-malformed", "r0 = [ int\n", b"\x01"),
         mk("J", "corpus", "doc-malformed", "r0 = int\n", b"{"),
         mk("J", "corpus", "schema-malformed", "r0 = [ int\n", b"1"),
     ]
@@ -884,10 +886,6 @@ def run(tier, seed):
             common_k = set(observed[e][x]) & set(observed[e][y])
             for k in sorted(common_k):
                 ca, cb = cases[observed[e][x][k]], cases[observed[e][y][k]]
-                if e == "C" and (x, y) == (0, 1) and k == "CDDLParsing" and KF_KIND in kfs:
-                    # classifier: entry point = validate_cbor_from_slice, document bytes not well-formed CBOR
-                    res.known(kfs[KF_KIND])
-                    continue
                 res.violation("%s reports two failure classes (%s and %s) through the same constructor Error::%s"
                               % (ENTRY_NAME[e], ["malformed schema", "malformed document", "non-conforming document"][x],
                                  ["malformed schema", "malformed document", "non-conforming document"][y], k),
@@ -1001,15 +999,7 @@ def all_keys(v):
 def replay_findings(res, kfs, drv, orc, table):
     for kid, kf in kfs.items():
         w = kf["witness"]
-        if kid == "kf-c14-cbor-docparse-as-cddlparsing":
-            a, b = common.run_tool(drv, ["C\t%s\t%s" % (w["schema"].encode().hex(), w["malformed_document_hex"]),
-                                         "C\t%s\t%s" % (w["malformed_schema"].encode().hex(), w["document_hex"])], shards=1)
-            ra, rb = parse_out(a), parse_out(b)
-            if ra["v"] == "ERR" and rb["v"] == "ERR" and ra["kind"] == rb["kind"]:
-                res.known(kf)
-            else:
-                res.notes.append("finding %s apparently repaired: malformed document -> %s, malformed schema -> %s" % (kid, ra["kind"], rb["kind"]))
-        elif kid == "kf-c14-slash-key-location":
+        if kid == "kf-c14-slash-key-location":
             doc = json.loads(w["document"])
             a = common.run_tool(drv, ["J\t%s\t%s" % (w["schema"].encode().hex(), w["document"].encode().hex())], shards=1)[0]
             ra = parse_out(a)
